@@ -157,6 +157,7 @@ def build_menu(k):
         'lonlat_to_cell_r12': lambda: a5.lonlat_to_cell(k['edge'], 12),
         'cell_to_lonlat_r4': lambda: a5.cell_to_lonlat(k['c4']),
         'boundary_closed_seg1': lambda: a5.cell_to_boundary(k['c7'], {'segments': 1, 'closed_ring': False}),
+        'boundary_far_seg1': lambda: a5.cell_to_boundary(k['strays'][1], {'segments': 1}),      # a cell of another face
         'lonlat_to_cell_r29_centre_a': lambda: a5.lonlat_to_cell(k['centre_a'], 29),
         'lonlat_to_cell_r29_centre_b': lambda: a5.lonlat_to_cell(k['centre_b'], 29),
         'cell_to_lonlat_r29_centre': lambda: a5.cell_to_lonlat(k['c29']),
@@ -423,7 +424,7 @@ def two_preemption_tasks(tier, k, solo_vals):
         plan = [('scalars', 'scalars_b', False, None, None, 2),
                 ('uncompact', 'uncompact_low', False, (1, 0), (1, 0), 2),
                 ('compact', 'compact', False, (1, 0), (1, 0), 2),
-                ('cell_to_lonlat', 'cell_to_lonlat_r4', True, (1, 0), 'func', 16)]
+                ('boundary_closed_seg1', 'boundary_far_seg1', True, (1, 0), 'func', 16)]
     else:
         plan = [('scalars', 'scalars_b', False, None, None, 2),
                 ('scalars_b', 'scalars', False, None, None, 2),
@@ -439,6 +440,8 @@ def two_preemption_tasks(tier, k, solo_vals):
                 ('cell_to_lonlat_r4', 'cell_to_lonlat', False, (1, 0), (1, 0), 32),
                 ('cell_to_lonlat', 'boundary_closed_seg1', False, (1, 0), (1, 0), 32),
                 ('boundary_closed_seg1', 'cell_to_lonlat', False, (1, 0), (1, 0), 32),
+                ('boundary_closed_seg1', 'boundary_far_seg1', True, (1, 0), (1, 0), 32),
+                ('boundary_far_seg1', 'boundary_closed_seg1', False, (1, 0), (1, 0), 32),
                 ('cell_to_lonlat_r29_centre', 'cell_to_lonlat', True, (1, 0), (1, 0), 32)]
     tasks = []
     for an, bn, warm, ca, cb, m in plan:
@@ -552,7 +555,7 @@ def run(tier, t0, only_pairs=None):
     rule = (f'{len(tasks)} explorations over {len(A)} calls A and {len(B)} calls B (cold and warm library): every line event of A inside the a5 package is a preemption point at which B runs to completion in a real second thread '
             '(thorough: every menu call as A x 12 calls B, cold and warm, every occurrence, plus every bytecode instruction for the short calls); after every schedule a fixed set of probe calls is made single-threaded; a short pair is also explored at cache fill levels 0, 8, 16, .. and every power of two / round number +-1 (thorough: every level 0..239); preemption bound 2 on the short calls: A suspended at i, B suspended at j, A completes, B completes, for every (i, j) within the stated occurrence caps; a state is (pair, temperature, point[, point of B]); non-trivial counts distinct (file, function, line) sites per pair')
     return common.finish(PID, LEVEL, tier, acc, t0, rule, [
-        'one preemption (A suspended at a point, a complete B, A resumes; both role assignments) for every pair; preemption bound 2 (A | B | A | B: B is itself suspended at its point j while A completes) for the short calls listed in two_preemption_tasks (counters.two_preemption_schedules), with every point of A and B for the scalar calls and the first (thorough: first 2 / last 1) occurrence of every line site otherwise (quick, geometric pair: B is suspended at the first line of every function it runs); three or more preemptions and free-threaded memory effects are not explored',
+        'one preemption (A suspended at a point, a complete B, A resumes; both role assignments) for every pair; preemption bound 2 (A | B | A | B: B is itself suspended at its point j while A completes) for the short calls listed in two_preemption_tasks (counters.two_preemption_schedules), with every point of A and B for the scalar calls and the first (thorough: first 2 / last 1) occurrence of every line site otherwise (quick, geometric pair - two boundary calls on cells of different faces: B is suspended at the first line of every function it runs, once per distinct calling function); three or more preemptions and free-threaded memory effects are not explored',
         'quick tier: of the dynamic occurrences of one line site (same file, function, line) inside A only the first 6 and the last 2 are preemption points (counters.points_skipped_by_occurrence_cap); the thorough tier explores every occurrence',
         'values compared bit-for-bit (floats by hex) with the same call run alone in a process forked from a pristine import',
         'a child that does not finish within 10 s counts as blocked (a schedule a lock would forbid), never as a violation',
